@@ -17,6 +17,10 @@ pub(crate) fn clean_file(path: impl AsRef<Path>, recreate_index_file: bool) -> R
     if !path.as_ref().exists() {
         Ok(())
     } else if recreate_index_file {
+        #[cfg(pearl_verif)]
+        if let Some(e) = crate::verif::io::tap_simple(path.as_ref(), crate::verif::IoOp::Truncate) {
+            return Err(e.into());
+        }
         StdFile::create(path).map(|_| ()).map_err(Into::into)
     } else {
         let msg = "Clean file is not permitted";
